@@ -13,9 +13,9 @@ func init() {
 func runC12(cx *ctx) {
 	r := cx.rng
 	// writer: segmentations
-	for _, n := range cx.lens(r, cx.n(30, 120), cx.n(10, 60)) {
+	for _, n := range cx.lens(r, cx.n(60, 200), cx.n(14, 80)) {
 		n := n
-		for rep := 0; rep < cx.n(2, 6); rep++ {
+		for rep := 0; rep < cx.n(4, 10); rep++ {
 			rr := r.Fork()
 			cx.ru.Do(func() *h.Case {
 				key := rr.Bytes(32)
@@ -30,7 +30,7 @@ func runC12(cx *ctx) {
 		}
 	}
 	// reader: schedules x sizes, valid payloads
-	for _, n := range cx.lens(r, cx.n(20, 80), cx.n(10, 60)) {
+	for _, n := range cx.lens(r, cx.n(40, 150), cx.n(14, 80)) {
 		n := n
 		for rep := 0; rep < cx.n(2, 5); rep++ {
 			rr := r.Fork()
@@ -43,7 +43,7 @@ func runC12(cx *ctx) {
 		}
 	}
 	// reader: damaged payloads must give the same bytes and error class under every schedule
-	for _, n := range cx.lens(r, cx.n(15, 60), cx.n(6, 40)) {
+	for _, n := range cx.lens(r, cx.n(40, 150), cx.n(12, 60)) {
 		n := n
 		for rep := 0; rep < cx.n(2, 5); rep++ {
 			rr := r.Fork()
